@@ -34,9 +34,9 @@ func (c05Prop) Phases(tier string) []PhaseCfg {
 		return PhaseCfg{Name: fmt.Sprintf("enum-depth-%d", d), Radix: rad, Count: product(rad), P: map[string]int{"depth": d}}
 	}
 	if tier == "thorough" {
-		return []PhaseCfg{enum(0), enum(1), enum(2), {Name: "seeded", Count: 3_000_000, P: map[string]int{"maxdepth": 5}}}
+		return []PhaseCfg{enum(0), enum(1), enum(2), {Name: "seeded", Count: 3_000_000, P: map[string]int{"maxdepth": 5}}, pairPhase(4_000, 300_000, tier)}
 	}
-	return []PhaseCfg{enum(0), enum(1), {Name: "seeded", Count: 60_000, P: map[string]int{"maxdepth": 5}}}
+	return []PhaseCfg{enum(0), enum(1), {Name: "seeded", Count: 60_000, P: map[string]int{"maxdepth": 5}}, pairPhase(4_000, 300_000, tier)}
 }
 
 type c05Case struct {
@@ -68,6 +68,10 @@ func drawCB(t *Tape, rich bool) CB {
 }
 
 func (c05Prop) Gen(t *Tape, ph *PhaseCfg) Case {
+	if ph.P["pair"] == 1 {
+		one := PhaseCfg{P: map[string]int{"maxdepth": ph.P["maxdepth"]}}
+		return genPair(t, func() Case { return c05Prop{}.Gen(t, &one) })
+	}
 	if ph.Enum() {
 		// draw order: for each level Before, After; then the Action of the addressed command.
 		d := ph.P["depth"]
@@ -167,43 +171,54 @@ func cbOf(path []*CmdDecl, ev string) CB {
 }
 
 func (c05Prop) Exec(cc Case, st *Stats) *Violation {
-	c := cc.(*c05Case)
-	path := c.Tree.Path
+	if g, ok := cc.(*genericPair); ok {
+		return execGenericPair(g, st, func(c Case, id int) *Prepared { return c05Prepare(c.(*c05Case), id) }, nil, nil)
+	}
 	EnvState{}.Apply()
-	p := NewProc(0)
+	pr := c05Prepare(cc.(*c05Case), 0)
+	RunProc(pr.Proc, pr.Body)
+	return pr.Finish(st)
+}
+
+func c05Prepare(c *c05Case, id int) *Prepared {
+	path := c.Tree.Path
+	p := NewProc(id)
 	var inst *Instance
-	RunProc(p, func() error {
+	body := func() error {
 		inst = Build(c.Tree.App, p)
 		return inst.Cli.Run(c.Argv)
-	})
-	st.Evals++
-	if v := c05Check(c, p, st, true); v != nil {
-		return v
 	}
-	// History: the same application object invoked again (a REPL or server loop). Every invocation
-	// is "a valid invocation" in the sense of the property, so the same model applies to each.
-	// Only trees whose sub-commands declare nothing can be initialised twice.
-	rerunnable := inst != nil
-	for i := 1; i < len(path); i++ {
-		if len(path[i].Decls) > 0 {
-			rerunnable = false
-		}
-	}
-	if !rerunnable {
-		return nil
-	}
-	for k := 1; k <= 2; k++ {
-		pk := NewProc(k)
-		inst.Proc = pk
-		RunProc(pk, func() error { return inst.Cli.Run(c.Argv) })
-		st.Count("reach.same_app_run_again")
-		if v := c05Check(c, pk, st, false); v != nil {
-			v.Clause = "rerun-" + v.Clause
-			v.Detail = fmt.Sprintf("run %d of the same application object: %s", k+1, v.Detail)
+	finish := func(st *Stats) *Violation {
+		st.Evals++
+		if v := c05Check(c, p, st, true); v != nil {
 			return v
 		}
+		// History: the same application object invoked again (a REPL or server loop). Every invocation
+		// is "a valid invocation" in the sense of the property, so the same model applies to each.
+		// Only trees whose sub-commands declare nothing can be initialised twice.
+		rerunnable := inst != nil
+		for i := 1; i < len(path); i++ {
+			if len(path[i].Decls) > 0 {
+				rerunnable = false
+			}
+		}
+		if !rerunnable {
+			return nil
+		}
+		for k := 1; k <= 2; k++ {
+			pk := NewProc(10 + k)
+			inst.Proc = pk
+			RunProc(pk, func() error { return inst.Cli.Run(c.Argv) })
+			st.Count("reach.same_app_run_again")
+			if v := c05Check(c, pk, st, false); v != nil {
+				v.Clause = "rerun-" + v.Clause
+				v.Detail = fmt.Sprintf("run %d of the same application object: %s", k+1, v.Detail)
+				return v
+			}
+		}
+		return nil
 	}
-	return nil
+	return &Prepared{Proc: p, Body: body, Finish: finish}
 }
 
 func c05Check(c *c05Case, p *Proc, st *Stats, first bool) *Violation {
